@@ -57,7 +57,7 @@ def shape_eq(a, b):
 class C10(C.PipelineCheck):
     id = 'C10'
     title = 'Zod schemas describe the same structure as the plain TypeScript declarations'
-    required_covers = ('field', 'param', 'enum', 'names', 'serializable', 'mapped')
+    required_covers = ('field', 'param', 'enum', 'names', 'serializable', 'mapped', 'empty-struct')
 
     def bounds(self, tier):
         q = tier != 'thorough'
@@ -82,6 +82,7 @@ class C10(C.PipelineCheck):
             yield ('types/%d' % (i // (2 if q else 6)), dict(kind='types', chains=chains[i:i + (2 if q else 6)]))
         for n in (1, 2, 4):
             yield ('enum/%d' % n, dict(kind='enum', n=n))
+        yield ('empty', dict(kind='empty'))
         # a foreign type covered by a type mapping: both modes must describe the mapping's target at fields and parameters alike
         mchains = [(), ('vec',), ('opt',), ('hmap-v',)] + ([] if q else [('tup2-1',), ('vec', 'opt'), ('result',)])
         for i in range(0, len(mchains), 2):
@@ -193,6 +194,14 @@ class C10(C.PipelineCheck):
                 # defect classes); deeper chains share the key of the depth-1 chain that fails for the same reason
                 role = next(((c,) for c in chain if c in ('hset', 'bset', 'result', 'result1')), chain)
                 tag = '%s:%s' % ('mapped' if p.get('mapped') else 'types', erase(skeleton(role, ('leaf', 't'))))
+            elif kind == 'empty':
+                # structs without any serialised field: unit struct, empty braces, every field skipped
+                form = e.choose(3)
+                decl = ['pub struct Ping;', 'pub struct Ping {}', 'pub struct Ping { #[serde(skip)] pub a: i32, #[serde(skip)] pub b: String }'][form]
+                src = (C.HEADER + '#[derive(Serialize, Deserialize)]\n' + decl + '\n#[derive(Serialize, Deserialize)]\npub struct Probe { pub id: u32, pub ping: Ping, pub maybe: Option<Ping> }\n' +
+                       CMD + 'cmd(probe: Probe, ping: Ping) -> i32 { 0 }\n')
+                tag = 'empty:%d' % form
+                e.cover('empty-struct')
             else:
                 v = C.sym_type_ident('v', p['n'])
                 holes['v'] = v
